@@ -52,6 +52,8 @@ def plan(tier, seed):
     specs.append({'kind': 'strings'})
     specs.append({'kind': 'idents'})
     specs.append({'kind': 'bytes_through_files'})
+    for i in range(2 if tier == 'quick' else 8):
+        specs.append({'kind': 'long_lines', 'count': 24 if tier == 'quick' else 60})
     n = 12 if tier == 'quick' else 48
     for i in range(n):
         specs.append({'kind': 'programs', 'count': 120 if tier == 'quick' else 700, 'files': i < 2})
@@ -264,6 +266,13 @@ def gen_numbers():
                     if s not in seen:
                         seen.add(s)
                         yield s
+    for f in progen.gen_numerals():
+        for pre in (b'', b'x='):
+            for post in (b'', b'\n', b' ..x'):
+                s = pre + f + post
+                if s not in seen:
+                    seen.add(s)
+                    yield s
 
 
 def gen_strings():
@@ -379,6 +388,57 @@ def run_shard(spec, ctx):
             src = b'x=1 --a' + c + b'b c=3\ny="' + q + b'z" w=[[' + (c if b != 93 else b'') + b'v]]\n//' + c + b' k=2\nz=4\n'
             check_source(ctx, src, 'bytes-file', files=True)
         ctx.sample({'bytes_file_source': b'x=1 --a\x0bb c=3\n'})
+    elif kind == 'long_lines':
+        # physical lines of 8..40 kB (data tables, minified code on one line): any fixed-size windowing inside the lexer would cut
+        # a token; the token falling on each power-of-two offset varies from line to line
+        P = [x for x in pool() if x[1] in ('symbol', 'keyword', 'name', 'number', 'string') and b'\n' not in x[0] and b'\r' not in x[0]
+             and x[0] != b'::']
+        for i in range(spec['count']):
+            target = rng.choice((4200, 8300, 8300, 9000, 16500, 16500, 33000, 40000)) if i % 6 else 70000
+            parts = []
+            n = 0
+            while n < target:
+                r = rng.random()
+                if r < 0.1:
+                    tok = b'"' + bytes(rng.choice(b'abc \\') for _ in range(rng.randint(1, 40))).replace(b'\\', b'\\n') + b'"'
+                elif r < 0.15:
+                    tok = b'name_' + bytes(rng.choice(b'abcdefghijklmnopqrstuvwxyz_0123456789') for _ in range(rng.randint(1, 30)))
+                elif r < 0.2:
+                    tok = b'%d.%d' % (rng.randrange(10 ** 6), rng.randrange(10 ** 5))
+                else:
+                    tok = rng.choice(P)[0]
+                parts.append(tok)
+                n += len(tok) + 1
+            src = b' '.join(parts)
+            tailk = i % 4
+            if tailk == 1:
+                src += b' --' + bytes(rng.choice(b'abc d-[]"') for _ in range(rng.randint(100, 9000)))
+            elif tailk == 2:
+                src += b'\nx=1\n'
+            elif tailk == 3:
+                src = b'y=2\n' + src + b'\n'
+            if reflex.try_lex(src)[1] is not None:
+                ctx.monitor('generator_rejects')
+                continue
+            ctx.feature('long_line_sources')
+            ctx.feature('long_line_over_%dk' % (8 if len(src) < 16384 else 16 if len(src) < 32768 else 32 if len(src) < 65536 else 64)
+                        if len(src) > 8192 else 'long_line_under_8k')
+            check_source(ctx, src, 'long-line')
+            if i % 4 == 0:
+                # a complete program on one long line (a data table), also delivered through .p8 and .p8.png files
+                n = rng.choice((8300, 12000, 17000))
+                items = []
+                ln = 0
+                while ln < n:
+                    r = rng.random()
+                    it = (b'%d' % rng.randrange(70000) if r < 0.4 else b'"%s"' % bytes(rng.choice(b'abcxyz ') for _ in range(rng.randint(0, 12)))
+                          if r < 0.7 else b'k%d' % rng.randrange(10 ** rng.randint(1, 9)) if r < 0.9 else b'0x%x.%x' % (rng.randrange(4096), rng.randrange(256)))
+                    items.append(it)
+                    ln += len(it) + 1
+                prog = b'd={' + b','.join(items) + b'}' + (b'\n' if i % 8 else b' -- end of data\nprint(#d)\n')
+                ctx.feature('long_line_programs_through_files')
+                check_source(ctx, prog, 'long-line', files=True)
+        ctx.sample({'long_line': 'one physical line of up to 70000 bytes made of pool tokens separated by single spaces'})
     elif kind == 'programs':
         for i in range(spec['count']):
             p = progen.gen_program(rng, {'depth': rng.choice((1, 2, 2, 3)), 'max_stmts': 4, 'exotic_numbers': True,
@@ -438,6 +498,9 @@ def gates(m, tier):
     for form in progen.NUM_FORMS:
         if f.get('num:' + form, 0) < 3:
             missed.append('number form %s seen %d times in programs' % (form, f.get('num:' + form, 0)))
+    if f.get('long_line_sources', 0) < 30 or min(f.get('long_line_over_%dk' % k, 0) for k in (8, 16, 32, 64)) < 2:
+        missed.append('long physical lines: %d (over 8k/16k/32k/64k: %s)' % (
+            f.get('long_line_sources', 0), [f.get('long_line_over_%dk' % k, 0) for k in (8, 16, 32, 64)]))
     if mon.get('chunked_runs_compared', 0) < 1000:
         missed.append('chunked runs compared: %d' % mon.get('chunked_runs_compared', 0))
     if mon.get('listtokens_runs', 0) < 10:
